@@ -35,8 +35,18 @@ open Upnp PyDict
 theorem gen_shapes : genCfg.skipStale = false ∧ genCfg.delEarly = false ∧ genCfg.clearDone = true
     ∧ Gen.C12Profile.shapesPinned = true := by decide
 
+/-- the subscribe loop iterates the profile device's services **including those of embedded devices** (the
+    profile resolves its services through `find_service()`, which descends): the `n` services the model
+    subscribes are all of `profile_device.all_services` that belong to the profile -/
+theorem gen_subscribes_embedded : Gen.C12Profile.subscribesEmbedded = true := by decide
+
 /-- the renewal margin is positive and shorter than the timeout asked for -/
 theorem gen_constants : 0 < genCfg.tol ∧ genCfg.tol < genCfg.subTimeout := by decide
+
+/-- the code renews exactly the property's margin (`Spec.marginSecs` = 60 s) before the earliest deadline.  The
+    judge uses the property's constant, never the code's: with a smaller `RESUBSCRIBE_TOLERANCE` this theorem breaks
+    AND the judge (still at 60 s) reports the lapses on the implementation's traces. -/
+theorem gen_margin : genCfg.tol = marginSecs := by decide
 
 /-- **service_tables_contiguous** ("all … of its profile's services" starts here): for every profile class
     (DmrDevice, DmsDevice, IgdDevice, PrinterDevice, ConnectionManagerMixin) and every service alias, the set of
@@ -461,8 +471,8 @@ example :
     adds up to less than the tolerance.  Rounds that start without sleeping are included (window argument,
     `Lemmas/C12Lapse.lean`). -/
 theorem lapse_trace (n : Nat) (script : List Entry) (dflt : Entry) (ops : List Op) :
-    (lapseMon n genCfg.tol genCfg.subTimeout (run genCfg n script dflt ops).trace).bad = [] := by
-  rw [lapseMon_trace]
+    (lapseMon n marginSecs genCfg.subTimeout (run genCfg n script dflt ops).trace).bad = [] := by
+  rw [← gen_margin, lapseMon_trace]
   have hsubT : (genCfg.tol : Int) * 1000 ≤ (genCfg.subTimeout : Int) * 1000 := by decide
   suffices H : ∀ st, Core st → TaskOk st → LP genCfg n st → LP genCfg n (ops.foldl (step genCfg n) st) from
     (H _ (Core.init script dflt) (by simp [TaskOk, init])
@@ -479,7 +489,7 @@ theorem lapse_trace (n : Nat) (script : List Entry) (dflt : Entry) (ops : List O
     | unsub => exact lapse_doUnsub genCfg gen_shapes.2.1 n st h ht hi
 
 /-- the latency hypothesis, as the judge evaluates it: the monitor is still `calm` after the history -/
-def CalmHistory (n : Nat) (tr : List Ev) : Bool := (lapseMon n genCfg.tol genCfg.subTimeout tr).calm
+def CalmHistory (n : Nat) (tr : List Ev) : Bool := (lapseMon n marginSecs genCfg.subTimeout tr).calm
 
 /-- **renew_before_expiry**: in any history, a renewal request for SID `s` that is issued while auto-renewal
     is in force and the history so far is calm arrives no later than the expiry the publisher holds for
@@ -489,9 +499,9 @@ theorem renew_before_expiry (n : Nat) (script : List Entry) (dflt : Entry) (ops 
     (pre post : List Ev) (r : Req) (s : Sid) (e : Time)
     (htr : (run genCfg n script dflt ops).trace = pre ++ .req r :: post)
     (hk : r.kind = .renew) (hs : r.sid = some s)
-    (hauto : (lapseMon n genCfg.tol genCfg.subTimeout pre).auto = true)
+    (hauto : (lapseMon n marginSecs genCfg.subTimeout pre).auto = true)
     (hcalm : CalmHistory n pre = true)
-    (he : get? (lapseMon n genCfg.tol genCfg.subTimeout pre).expiry s = some (some e)) : r.t ≤ e := by
+    (he : get? (lapseMon n marginSecs genCfg.subTimeout pre).expiry s = some (some e)) : r.t ≤ e := by
   have hbad := lapse_trace n script dflt ops
   rw [htr] at hbad
   -- the monitor's flags only grow: had this request been late it would still be flagged at the end
@@ -517,16 +527,16 @@ theorem renew_before_expiry (n : Nat) (script : List Entry) (dflt : Entry) (ops 
         · exact h
       | call t c => cases c <;> exact h
       | ret t c res => cases c <;> exact h
-  have hsplit : lapseMon n genCfg.tol genCfg.subTimeout (pre ++ .req r :: post)
-      = post.foldl lapseStep (lapseStep (lapseMon n genCfg.tol genCfg.subTimeout pre) (.req r)) := by
+  have hsplit : lapseMon n marginSecs genCfg.subTimeout (pre ++ .req r :: post)
+      = post.foldl lapseStep (lapseStep (lapseMon n marginSecs genCfg.subTimeout pre) (.req r)) := by
     simp [lapseMon, List.foldl_append]
   rw [hsplit] at hbad
-  have hstep : (lapseStep (lapseMon n genCfg.tol genCfg.subTimeout pre) (.req r)).bad = [] := by
-    cases hb : (lapseStep (lapseMon n genCfg.tol genCfg.subTimeout pre) (.req r)).bad with
+  have hstep : (lapseStep (lapseMon n marginSecs genCfg.subTimeout pre) (.req r)).bad = [] := by
+    cases hb : (lapseStep (lapseMon n marginSecs genCfg.subTimeout pre) (.req r)).bad with
     | nil => rfl
     | cons x xs => exact absurd hbad (mono post _ (by rw [hb]; simp))
   unfold CalmHistory at hcalm
-  generalize lapseMon n genCfg.tol genCfg.subTimeout pre = m at hauto hcalm he hstep
+  generalize lapseMon n marginSecs genCfg.subTimeout pre = m at hauto hcalm he hstep
   simp only [lapseStep, hk, hs, hauto, hcalm, lapsed, he, beq_self_eq_true, Bool.true_and, flagged] at hstep
   by_cases hlt : e < r.t
   · simp [hlt] at hstep
@@ -537,7 +547,7 @@ theorem renew_before_expiry (n : Nat) (script : List Entry) (dflt : Entry) (ops 
 example :
     let tr := (run genCfg 2 [⟨.ok, .sec 61, 0⟩, ⟨.ok, .sec 300, 0⟩, ⟨.ok, .sec 61, 5000⟩, ⟨.ok, .sec 300, 5000⟩]
       ⟨.ok, .sec 300, 250⟩ [Op.sub true, Op.wait 100000]).trace
-    CalmHistory 2 tr = true ∧ (lapseMon 2 genCfg.tol genCfg.subTimeout tr).auto = true
+    CalmHistory 2 tr = true ∧ (lapseMon 2 marginSecs genCfg.subTimeout tr).auto = true
     ∧ (tr.filterMap fun e => match e with
           | .req r => if r.kind == .renew then some r.t else none
           | _ => none) = [1000, 6000, 11000, 11250] := by
@@ -671,7 +681,7 @@ theorem yield_trace_long (n : Nat) (script : List Entry) (dflt : Entry) (ops : L
     model, and a correspondence mismatch is the only way the two can differ. -/
 theorem judge_accepts_model (n : Nat) (script : List Entry) (dflt : Entry) (ops : List Op)
     (hb : BudgetOk n script dflt ops = true) :
-    ok n genCfg.tol genCfg.subTimeout (run genCfg n script dflt ops).trace = true := by
+    ok n marginSecs genCfg.subTimeout (run genCfg n script dflt ops).trace = true := by
   unfold ok violations
   rw [all_or_nothing_trace, lapse_trace, report_trace, clean_trace, yield_trace n script dflt ops hb]
   rfl
@@ -680,7 +690,7 @@ theorem judge_accepts_model (n : Nat) (script : List Entry) (dflt : Entry) (ops 
     (hypothesis on the publisher script only): the run-time judge accepts every model trace. -/
 theorem judge_accepts_model_long (n : Nat) (script : List Entry) (dflt : Entry) (ops : List Op)
     (hl : LongTimeouts script dflt) :
-    ok n genCfg.tol genCfg.subTimeout (run genCfg n script dflt ops).trace = true :=
+    ok n marginSecs genCfg.subTimeout (run genCfg n script dflt ops).trace = true :=
   judge_accepts_model n script dflt ops (budget_ok_of_long_timeouts n script dflt ops hl)
 
 /-- non-vacuity of `LongTimeouts` (61 s, 1800 s, infinite, absent); 60 s is the excluded point (its behaviour
@@ -696,7 +706,7 @@ example :
       ⟨.unreach, .sec 61, 500⟩, ⟨.ok, .sec 61, 40000⟩]
     let ops := [Op.sub true, Op.wait 20125, Op.wait 30000, Op.unsub, Op.wait 100000]
     BudgetOk 2 script ⟨.ok, .sec 300, 0⟩ ops = true
-    ∧ ok 2 genCfg.tol genCfg.subTimeout (run genCfg 2 script ⟨.ok, .sec 300, 0⟩ ops).trace = true := by
+    ∧ ok 2 marginSecs genCfg.subTimeout (run genCfg 2 script ⟨.ok, .sec 300, 0⟩ ops).trace = true := by
   decide
 
 /-! ### composition with the event-handler model of C09
